@@ -135,6 +135,8 @@ class Ctx:
         return path
 
     # -- finish --------------------------------------------------------------------
+    replay_mode = False      # --replay runs report on stdout only: the evidence file describes the last real run
+
     def finish(self):
         for k, sig in self.known_hits:
             print("KNOWN-FINDING: property=%s %s [%s]" % (self.pid, k.get("what", ""), sig), flush=True)
@@ -158,6 +160,8 @@ class Ctx:
         ev = {"property_id": self.pid, "tier": self.tier, "seed": self.seed, "level": self.level,
               "coverage": cov, "assumptions": self.assumptions, "wall_s": round(time.time() - self.t0, 2),
               "violations": len(self.violations)}
+        if self.replay_mode:
+            return 1 if self.violations else 0
         os.makedirs(EVIDENCE_DIR, exist_ok=True)
         tmp = os.path.join(EVIDENCE_DIR, ".%s.json.tmp" % self.pid)
         with open(tmp, "w") as f:
@@ -190,6 +194,7 @@ def main(argv):
         if a.replay:
             with open(a.replay) as f:
                 body = json.load(f)
+            ctx.replay_mode = True
             mod.replay(ctx, body)
         else:
             mod.run(ctx)
